@@ -521,3 +521,188 @@ def build():
                      ensures=[('the-tag-of-the-source-is-a-bit-vector', lambda c: z3.And(S.ival(c.res) >= 0, S.ival(c.res) < 2 ** BITW))],
                      modifies=lambda c: {'attr:_processed_nodes': [c.p.self], 'list': (lambda a: a >= c.old.next), 'dom': (lambda a: a >= c.old.next)}))
     return reg
+
+
+def static_obligations(reg, tier):
+    """what the frames assumed for the opaque analysis steps rest on, decided on the AST of every file under src/lian (syntactic, all files, every run):
+    the round counters, the loop-round table, the round bound and the call-site counter table have exactly the known writers, and never escape into an alias"""
+    import os
+    from lianvc import source
+    out = []
+
+    def res(name, okv, detail=''):
+        out.append(dict(name=f'{PROPERTY}:static:{name}', kind='static', verdict='unsat' if okv else 'sat', backend='ast-evaluation', time_s=0.0,
+                        model=None if okv else {'detail': detail}, reason='' if okv else detail))
+    TABLES = ('stmt_counters', 'loop_total_rounds', 'call_site_analyze_counter', 'max_analysis_round')
+    # structural, not textual: (file, enclosing function, table, shape of the write).  Renaming locals or reformatting does not matter; a new writer, a writer in
+    # another function, or a different kind of value does.
+    ALLOWED = {
+        ('src/lian/common_structs.py', 'ComputeFrame.__init__', 'stmt_counters', 'attr = {}'), ('src/lian/common_structs.py', 'ComputeFrame.__init__', 'loop_total_rounds', 'attr = {}'),
+        ('src/lian/common_structs.py', 'ComputeFrame.__init__', 'call_site_analyze_counter', 'attr = parameter'),
+        ('src/lian/taint/taint_structs.py', '*', 'stmt_counters', 'attr = {}'),
+        ('src/lian/core/global_semantics.py', '*.__init__', 'max_analysis_round', 'attr = config constant'),
+        ('src/lian/core/global_semantics.py', '*.__init__', 'call_site_analyze_counter', 'attr = {}'),
+        ('src/lian/core/global_semantics.py', '*.run', 'call_site_analyze_counter', 'attr = {}'),
+        ('src/lian/core/global_semantics.py', '*.init_compute_frame', 'stmt_counters', 'item = config constant'),
+        ('src/lian/core/prelim_semantics.py', '*.__init__', 'max_analysis_round', 'attr = config constant'),
+        ('src/lian/core/prelim_semantics.py', '*.init_compute_frame', 'stmt_counters', 'item = config constant'),
+        ('src/lian/core/prelim_semantics.py', '*.analyze_stmts', 'stmt_counters', 'item += 1'),
+        ('src/lian/core/global_stmt_states.py', '*.compute_target_method_states', 'call_site_analyze_counter', 'item = same item (default 0) + 1'),
+    }
+
+    def allowed(w):
+        rel, fn, tbl, shape = w
+        return any(a_[0] == rel and a_[2] == tbl and a_[3] == shape and (a_[1] == '*' or a_[1] == fn or (a_[1].startswith('*.') and fn.endswith(a_[1][1:])))
+                   for a_ in ALLOWED)
+
+    def is_config_const(e, fn_node):
+        if isinstance(e, ast.Attribute) and isinstance(e.value, ast.Name) and e.value.id == 'config':
+            return True
+        if isinstance(e, ast.Name) and fn_node is not None:
+            vals = [s_.value for s_ in ast.walk(fn_node) if isinstance(s_, ast.Assign) and any(isinstance(t_, ast.Name) and t_.id == e.id for t_ in s_.targets)]
+            return bool(vals) and all(is_config_const(v_, None) for v_ in vals)
+        return False
+
+    def shape_of(stmt, target, fn_node):
+        kind = 'item' if isinstance(target, ast.Subscript) else 'attr'
+        if isinstance(stmt, ast.AugAssign):
+            return f'{kind} += 1' if isinstance(stmt.op, ast.Add) and isinstance(stmt.value, ast.Constant) and stmt.value.value == 1 else f'{kind} augmented: {ast.unparse(stmt)[:60]}'
+        if isinstance(stmt, (ast.Assign, ast.AnnAssign)) and stmt.value is not None:
+            v = stmt.value
+            if isinstance(v, ast.Dict) and not v.keys:
+                return f'{kind} = {{}}'
+            if is_config_const(v, fn_node):
+                return f'{kind} = config constant'
+            if isinstance(v, ast.Name) and fn_node is not None and v.id in [a_.arg for a_ in fn_node.args.args + fn_node.args.kwonlyargs] and not any(
+                    isinstance(s_, (ast.Assign, ast.AugAssign, ast.AnnAssign)) and any(isinstance(t_, ast.Name) and t_.id == v.id for t_ in (s_.targets if isinstance(s_, ast.Assign) else [s_.target]))
+                    for s_ in ast.walk(fn_node)):
+                return f'{kind} = parameter'
+            if kind == 'item' and isinstance(v, ast.BinOp) and isinstance(v.op, ast.Add) and isinstance(v.right, ast.Constant) and v.right.value == 1 and \
+                    isinstance(v.left, ast.Call) and isinstance(v.left.func, ast.Attribute) and v.left.func.attr == 'get' and \
+                    ast.unparse(v.left.func.value) == ast.unparse(target.value) and len(v.left.args) == 2 and ast.unparse(v.left.args[0]) == ast.unparse(target.slice) and \
+                    isinstance(v.left.args[1], ast.Constant) and v.left.args[1].value == 0:
+                return 'item = same item (default 0) + 1'
+        return f'{kind} other: {ast.unparse(stmt)[:70]}'
+
+    writers, escapes, ctor_sites = [], [], []
+    root = os.path.join(source.REPO, 'src', 'lian')
+    for dp, dn, fn in os.walk(root):
+        for f_ in sorted(fn):
+            if not f_.endswith('.py'):
+                continue
+            pth = os.path.join(dp, f_)
+            rel = os.path.relpath(pth, source.REPO)
+            try:
+                tree = ast.parse(open(pth, encoding='utf-8').read())
+            except SyntaxError:
+                continue
+            parents = {}
+            for n in ast.walk(tree):
+                for ch in ast.iter_child_nodes(n):
+                    parents[id(ch)] = n
+            for n in ast.walk(tree):
+                if isinstance(n, ast.Call) and isinstance(n.func, ast.Name) and n.func.id == 'ComputeFrame' and rel.endswith('global_semantics.py'):
+                    kw = {k.arg: ast.unparse(k.value) for k in n.keywords}
+                    ctor_sites.append((n.lineno, kw.get('call_site_analyze_counter')))
+                if not (isinstance(n, ast.Attribute) and n.attr in TABLES):
+                    continue
+                par = parents.get(id(n))
+                stmt = par
+                while stmt is not None and not isinstance(stmt, ast.stmt):
+                    stmt = parents.get(id(stmt))
+                src = ast.unparse(stmt)[:90] if stmt is not None else ''
+                fn_node, cls_node = stmt, None
+                while fn_node is not None and not isinstance(fn_node, (ast.FunctionDef, ast.AsyncFunctionDef)):
+                    fn_node = parents.get(id(fn_node))
+                cls_node = parents.get(id(fn_node)) if fn_node is not None else None
+                fq = (f'{cls_node.name}.' if isinstance(cls_node, ast.ClassDef) else '') + (fn_node.name if fn_node is not None else '<module>')
+                if isinstance(n.ctx, (ast.Store, ast.Del)):
+                    writers.append((rel, fq, n.attr, shape_of(stmt, n, fn_node)))               # x.table = ...
+                elif isinstance(par, ast.Subscript) and par.value is n:
+                    if isinstance(par.ctx, (ast.Store, ast.Del)):
+                        writers.append((rel, fq, n.attr, shape_of(stmt, par, fn_node)))         # x.table[k] = ... / += / del
+                elif isinstance(par, ast.Attribute) and par.value is n:
+                    if par.attr not in ('get', 'items', 'keys', 'values'):
+                        if par.attr in ('pop', 'clear', 'update', 'setdefault', 'popitem', '__setitem__'):
+                            writers.append((rel, fq, n.attr, f'method {par.attr}: {src}'))
+                        else:
+                            escapes.append((rel, src))
+                elif isinstance(par, ast.Compare) or (isinstance(par, ast.Call) and isinstance(par.func, ast.Name) and par.func.id == 'len'):
+                    pass                                                                    # `k in x.table`, comparisons of the bound, len()
+                elif isinstance(par, ast.keyword) and par.arg == 'call_site_analyze_counter' and n.attr == 'call_site_analyze_counter':
+                    pass                                                                    # handed to ComputeFrame(...): checked below
+                elif isinstance(par, (ast.BinOp, ast.UnaryOp, ast.BoolOp, ast.IfExp, ast.FormattedValue, ast.JoinedStr)) and n.attr == 'max_analysis_round':
+                    pass                                                                    # the bound is an int: reading it into an expression is not an alias
+                else:
+                    escapes.append((rel, src))
+    bad_w = sorted({w for w in writers if not allowed(w)})
+    res('the-round-counters,-the-bound-and-the-call-site-table-have-only-their-known-writers', not bad_w, f'unexpected writer(s): {bad_w[:4]}')
+    res('no-alias-of-a-counter-table-escapes', not escapes, f'reference escapes: {sorted(set(escapes))[:4]}')
+    bad_c = [c_ for c_ in ctor_sites if c_[1] != 'self.call_site_analyze_counter']
+    res('every-ComputeFrame-of-the-global-phase-is-given-the-analysis-wide-call-site-table', bool(ctor_sites) and not bad_c, f'ComputeFrame(...) at {bad_c or "no site found"}')
+    m = source.load(CS)
+    init = m.function('ComputeFrame.__init__')
+    rebinds = [ast.unparse(s_) for s_ in ast.walk(init) if isinstance(s_, (ast.Assign, ast.AugAssign, ast.AnnAssign)) and any(
+        isinstance(t_, ast.Name) and t_.id == 'call_site_analyze_counter' for t_ in (s_.targets if isinstance(s_, ast.Assign) else [s_.target]))]
+    stores = [ast.unparse(s_) for s_ in ast.walk(init) if isinstance(s_, (ast.Assign, ast.AnnAssign)) and any(
+        isinstance(t_, ast.Attribute) and t_.attr == 'call_site_analyze_counter' for t_ in (s_.targets if isinstance(s_, ast.Assign) else [s_.target]))]
+    res('ComputeFrame.__init__-keeps-the-very-table-it-is-given', stores == ['self.call_site_analyze_counter = call_site_analyze_counter'] and not rebinds, str((stores, rebinds)))
+    # run(): one fresh table per entry point
+    g = source.load('src/lian/core/global_semantics.py')
+    run = g.function('GlobalAnalysis.run') if 'GlobalAnalysis.run' in g.functions else None
+    if run is None:
+        cands = [q for q in g.functions if q.endswith('.run')]
+        run = g.function(cands[0]) if cands else None
+    ok_run = False
+    if run is not None:
+        for n in ast.walk(run):
+            if isinstance(n, ast.For) and 'get_entry_points' in ast.unparse(n.iter):
+                body = [ast.unparse(s_) for s_ in n.body]
+                if 'self.call_site_analyze_counter = {}' in body and any('init_frame_stack' in b for b in body) and \
+                        body.index('self.call_site_analyze_counter = {}') < min(i for i, b in enumerate(body) if 'init_frame_stack' in b):
+                    ok_run = True
+    res('the-global-phase-starts-every-entry-point-with-a-fresh-call-site-table', ok_run, 'run(): no `self.call_site_analyze_counter = {}` before init_frame_stack in the entry-point loop')
+    return out
+
+
+EXTRA_OBLIGATIONS = [static_obligations]
+
+ASSUMPTIONS = [
+    'TERMINATION AND RUNNING TIME ARE NOT DECIDED. The statement is a liveness + complexity claim; what is proved are the safety invariants of the bounding mechanisms the '
+    'anchors name (per-statement round counters, per-call-site counters, the cut-off predicate). That these bounds make the whole pipeline terminate in polynomial time '
+    '(interruptions, frame stack, P2, imports, taint worklist) is not proved.',
+    'the analysis steps called by analyze_stmts (analyze_reachable_symbols, compute_stmt_states, rerun_analyze_reachable_symbols, update_method_def_use_summary) are opaque: '
+    'assumed to keep the queue invariant and not to write frame.stmt_counters / loop_total_rounds / max_analysis_round or re-point the frame tables; the static obligations '
+    '(all writers of those names in src/lian, no escaping alias) back the counter part of that assumption syntactically',
+    'prepare_parameters / map_arguments are opaque: assumed not to write the call-site counter table or the done-table and to leave pre-existing lists alone '
+    '(except the mapping list passed in)',
+    'heapq.heappush is trusted as "the list becomes a permutation of old + [x]" (heap order not modelled, not needed for the bound)',
+    'PathManager.path_exists is used as a pure membership test (its exactness is proved in C19); util.graph_successors returns a fresh list of ints; '
+    'GIRBlockViewer.get_stmt_by_id returns some row',
+    'analyze_stmts precondition: queued items are ints and the frame tables are pairwise distinct objects (true after ComputeFrame.__init__: each is a fresh literal)',
+    'taint worklist: _enqueue, the three propagation steps and the main loop of propagate_taint are proved as far as the RE-ENQUEUE RULE goes (strict tag growth, statement re-read, '
+    'or never dequeued in this propagation; the per-propagation set is fresh and receives every dequeued node); that the worklist therefore drains within 16*|V| + |V| + |E| steps is '
+    'not stated as a lemma; _init_source_contamination and _get_node_tag are opaque; collections.deque is modelled as a list; self.sfg / self.taint_manager are properties read as '
+    'stable attributes; getattr(self, "_processed_nodes", None) is read as the attribute (its presence is assumed)',
+    'the size caps named in the anchors are not under contract: MAX_ARRAY_ELEMENT_STATES, MAX_TYPE_CAST_SOURCE_STATES, '
+    'MAX_METHOD_CALL_COUNT, MAX_STMT_TAINT_ANALYSIS_COUNT are defined in config.py and referenced nowhere; loop_total_rounds is never written, so that branch is dead',
+    'static obligations are syntactic facts about every file under src/lian (AST evaluation), not deductive proofs',
+]
+EXPLANATION = ('Deductive proof on the real code of the bounding invariants: in analyze_stmts a statement reaches compute_stmt_states only while its round counter is below its '
+               'bound, every completed visit adds exactly one to that counter, counters never decrease and the tables stay in place; complete_in_states_and_check_continue_flag '
+               'answers False at the bound; compute_target_method_states selects a callee only while its call-site counter is within MAX_ANALYSIS_ROUND_FOR_CALL_SITE, the '
+               'path is not stored and closes at most one cycle, and selecting adds exactly one; SimpleWorkList never queues an item twice. Termination/complexity: not decided.')
+QUICK_CANARIES = {
+    'P2PrelimSemanticAnalysis.analyze_stmts': ['delete-stmt[frame.stmt_counters[stmt_id] += 1]', 'off-by-one', 'flip-comparison'],
+    'P2PrelimSemanticAnalysis.complete_in_states_and_check_continue_flag': ['flip-comparison', 'negate-condition'],
+    'GlobalStmtStates.compute_target_method_states': ['flip-comparison', 'delete-stmt[self.frame.call_site_analyze_counter[new_call_site] =', 'delete-stmt[continue]'],
+    'SimpleWorkList._add_with_priority': ['negate-condition', 'delete-stmt[self.all_data.add(item)]'],
+    'SimpleWorkList.pop': ['delete-stmt[self.all_data.remove(result)]', 'flip-comparison'],
+    'PathFinder._enqueue': ['negate-condition', 'delete-stmt[in_worklist.add(node)]'],
+    'PathFinder._propagate_from_symbol': ['flip-comparison'],
+    'PathFinder._propagate_from_stmt': ['flip-comparison', 'negate-condition'],
+    'PathFinder.propagate_taint': ['delete-stmt[self._processed_nodes.add(u)]', 'delete-stmt[self._processed_nodes = set()]'],
+}
+MIN_CANARY_KILL_RATIO = 0.8
+# survivors that do not touch the bounding mechanism: the unknown-callee report, and a statement after the verified prefix
+EQUIVALENT_MUTANTS = ('flip-comparison @L105: len(callee_method_ids) == 0', 'flip-comparison @L143: len(callee_ids_to_be_analyzed) != 0')
